@@ -10,7 +10,7 @@ use serde_json::Value as J;
 pub fn commands() -> Vec<&'static str> {
     vec![
         "get a", "get-safe a", "set a v", "set-safe a 1 v", "set-safe a 0 stale", "remove a", "remove zz", "increment n 2", "increment a 1", "keys a*", "watch a", "unwatch a", "unwatch-all",
-        "snapshot false", "snapshot true", "create-db fresh ftok", "create-user u utok", "set-permissions u rw *", "arbiter", "cluster-state", "metrics-state", "debug list-dbs",
+        "snapshot false", "snapshot true", "snapshot false d|r", "snapshot true r|d|r|d", "snapshot false d", "create-db fresh ftok", "create-user u utok", "set-permissions u rw *", "arbiter", "cluster-state", "metrics-state", "debug list-dbs",
         "use-db d tok", "use-db d wrong", "RESOLVE", "CONFLICT",
     ]
 }
